@@ -291,13 +291,16 @@ def run(ctx: Ctx) -> None:
         outs = pr.model_out([p[1]['line'] for p in pending])
         for (case, res, origin, entry), mo in zip(pending, outs):
             same = agree(res, mo)
-            if entry and 'expect_line' in entry and entry['expect_line'] != res['line']:
-                ctx.disagreements.append(Disagreement('pack-witness', {'file': entry['_file']}, entry['expect_line'], res['line']))
-            if entry and 'expect' in entry:
-                exp = entry['expect']
+            if entry and entry.get('lean_witness'):
+                # the input of the Lean `decide` witness IS what is measured on the real objects of this case,
+                # and the real code does what the theorem says (status, message lengths)
+                ctx.count('lean-witness-replayed')
+                lean_line = common.run_driver('drv_pack', ['pack witness ' + entry['lean_input']])[0]
+                if lean_line != res['line']:
+                    ctx.disagreements.append(Disagreement('pack-witness', {'file': entry['_file'], 'theorem': entry['lean_witness']}, lean_line, res['line']))
                 got = {'status': res['status'], 'lens': res['lens']}
-                if any(got[k] != exp[k] for k in exp):
-                    ctx.disagreements.append(Disagreement('pack-witness', {'file': entry['_file'], 'what': 'the real code no longer behaves as the Lean witness says'}, exp, got))
+                if got != entry['lean_claims']:
+                    ctx.disagreements.append(Disagreement('pack-witness', {'file': entry['_file'], 'theorem': entry['lean_witness'], 'what': 'the real code does not behave as the Lean witness says'}, entry['lean_claims'], got))
             if not same:
                 ctx.count('disagreement')
                 if len(ctx.disagreements) < 20:
